@@ -24,10 +24,10 @@ RULE = (
 )
 ASSUME = [
     'soundness only is demanded (docs call the judgements best-effort)',
-    'admissible = concrete plug textually satisfying the declared e_fresh/s_fresh/positive/negative lists; app_ctx_holes not interpreted',
+    'admissible = concrete plug textually satisfying the declared e_fresh/s_fresh/positive/negative lists; a metavariable declared an application context in x (app_ctx_holes) is plugged with a pattern in which x occurs exactly once, below applications only',
     'instances are sampled, not enumerated',
 ]
-CFG = gens.Cfg(ids=(0, 1, 2, 3), nsyms=2)
+CFG = gens.Cfg(ids=(0, 1, 2, 3), nsyms=2, holes=True)
 NAMES = ('e_fresh', 's_fresh', 'positive', 'negative')
 
 
@@ -50,7 +50,7 @@ def cases(draw):
         p = gens.expand_sugared(sug, defs)
     sigmas = []
     for _ in range(6):
-        sigmas.append(sorted(gens.draw_admissible_instance(draw, p, CFG, 2).items()))
+        sigmas.append(sorted(gens.draw_admissible_instance(draw, p, CFG, 2, respect_holes=True).items()))
     return {'part': part, 'p': p, 'sug': sug, 'sigmas': sigmas}
 
 
